@@ -47,7 +47,7 @@ impl QueueHandler for NoBatch {
     }
 }
 
-fn params(k: u32) -> QueueParameters {
+pub fn params(k: u32) -> QueueParameters {
     QueueParameters {
         manager: if k % 2 == 0 { ManagerType::Slurm } else { ManagerType::Pbs },
         max_workers_per_alloc: 1 + k % 3,
